@@ -224,6 +224,20 @@ func c24Race(k, rounds int) string {
 
 var c24RaceHash string
 
+// c24HeaderSets: request headers other than Authorization. None of them may influence the 401 decision.
+var c24HeaderSets = [][][2]string{
+	{},
+	{{"Origin", "https://evil.example"}, {"Access-Control-Request-Method", "GET"}},                                                  // CORS preflight
+	{{"Origin", "null"}, {"Access-Control-Request-Method", "POST"}, {"Access-Control-Request-Headers", "authorization,content-type"}}, // CORS preflight with headers
+	{{"Upgrade", "websocket"}, {"Connection", "Upgrade"}, {"Sec-WebSocket-Key", "dGhlIHNhbXBsZSBub25jZQ=="}, {"Sec-WebSocket-Version", "13"}},
+	{{"X-HTTP-Method-Override", "GET"}, {"X-Original-URL", "/health"}, {"X-Rewrite-URL", "/health"}, {"X-Forwarded-Uri", "/"}},
+	{{"X-Forwarded-For", "127.0.0.1"}, {"X-Forwarded-Proto", "https"}, {"X-Real-IP", "::1"}, {"Forwarded", "for=127.0.0.1"}, {"Via", "1.1 localhost"}},
+	{{"Proxy-Authorization", "Bearer " + c24Token}, {"X-Authorization", "Bearer " + c24Token}, {"Cookie", "token=" + c24Token}, {"X-Api-Key", c24Token}},
+	{{"Origin", "https://evil.example"}},
+	{{"Access-Control-Request-Method", "DELETE"}},
+	{{"Host", "localhost"}, {"Referer", "http://localhost/health"}, {"User-Agent", "kube-probe/1.29"}, {"Content-Type", "application/json"}, {"Accept", "*/*"}},
+}
+
 // gate <minimal 0|1> <pprof u|t|f> <dashboard u|t|f> <remote_api u|t|f> <method> <path hex>
 //   -> pat=<Request.Pattern|-> st=<404|301|h>
 // The HTTP server is the one the AGENT builds: the YAML configuration is parsed by config.Parse,
@@ -288,7 +302,12 @@ func c24Run(line string) string {
 	if f[0] == "gate" && len(f) == 7 {
 		return c24Gate(f)
 	}
-	if f[0] != "req" || len(f) != 8 {
+	// reqh = req plus a trailing index into c24HeaderSets: extra request headers that must not matter
+	hset := 0
+	if f[0] == "reqh" && len(f) == 9 {
+		hset, _ = strconv.Atoi(f[8])
+		f = f[:8]
+	} else if f[0] != "req" || len(f) != 8 {
 		return "bad-op"
 	}
 	srv := c24Server(string(unhexTok(f[1])), f[2])
@@ -299,6 +318,11 @@ func c24Run(line string) string {
 	req := httptest.NewRequest(f[3], target, nil)
 	if f[5] != "-" {
 		req.Header.Set("Authorization", string(unhexTok(f[5])))
+	}
+	if hset > 0 && hset < len(c24HeaderSets) {
+		for _, kv := range c24HeaderSets[hset] {
+			req.Header.Add(kv[0], kv[1])
+		}
 	}
 	ctx, cancel := context.WithTimeout(req.Context(), 25*time.Millisecond)
 	defer cancel()
@@ -435,7 +459,7 @@ func c24Gen(w *bufio.Writer, seed int64, tier string) {
 			return p + "/x"
 		}
 	}
-	methods := []string{"GET", "GET", "GET", "POST", "POST", "PUT", "DELETE", "HEAD", "OPTIONS", "PATCH", "CONNECT"}
+	methods := []string{"GET", "GET", "GET", "POST", "POST", "PUT", "DELETE", "HEAD", "OPTIONS", "OPTIONS", "PATCH", "CONNECT", "TRACE"}
 	for i := 0; i < n; i++ {
 		p := base[r.intn(len(base))]
 		for k := r.pick(0, 0, 0, 1, 1, 1, 2, 2, 3); k > 0; k-- {
@@ -531,7 +555,11 @@ func c24Gen(w *bufio.Writer, seed int64, tier string) {
 		case 8:
 			hasq, qt = 1, r.pickS("\x00", tok[:len(tok)-1], "\x00"+tok)
 		}
-		fmt.Fprintf(w, "req %s %s %s %s %s %d %s\n", hexTok([]byte(cfgtok)), flags, methods[r.intn(len(methods))], hexTok([]byte(p)), hexTok([]byte(auth)), hasq, hexTok([]byte(qt)))
+		if r.chance(35) {
+			fmt.Fprintf(w, "reqh %s %s %s %s %s %d %s %d\n", hexTok([]byte(cfgtok)), flags, methods[r.intn(len(methods))], hexTok([]byte(p)), hexTok([]byte(auth)), hasq, hexTok([]byte(qt)), 1+r.intn(len(c24HeaderSets)-1))
+		} else {
+			fmt.Fprintf(w, "req %s %s %s %s %s %d %s\n", hexTok([]byte(cfgtok)), flags, methods[r.intn(len(methods))], hexTok([]byte(p)), hexTok([]byte(auth)), hasq, hexTok([]byte(qt)))
+		}
 	}
 }
 
@@ -542,6 +570,26 @@ func init() {
 // c24GenAll = the request stream plus the concurrent wrong-token case (sparingly: bcrypt cost 10).
 func c24GenAll(w *bufio.Writer, seed int64, tier string) {
 	c24Gen(w, seed, tier)
+	// headers other than Authorization never matter (always emitted, independent of the seed): every
+	// protected path x every method x every header set, no token / a wrong token -> 401 before the mux
+	prot := []string{"/agents", "/agents/", "/agents/abc/shell", "/agents/abc/file/upload", "/routes/advertise", "/routes/manage", "/forward/manage",
+		"/display-name/manage", "/sleep", "/sleep/status", "/wake", "/api/topology", "/api/dashboard", "/api/nodes", "/api/mesh-test",
+		"/debug/pprof/", "/debug/pprof/cmdline", "/debug/pprof/goroutine", "/debug/pprof/symbol", "/debug/pprof/heap", "/nosuch"}
+	allMethods := []string{"GET", "POST", "PUT", "DELETE", "HEAD", "OPTIONS", "PATCH", "CONNECT", "TRACE"}
+	for _, pp := range prot {
+		for _, m := range allMethods {
+			for hs := 1; hs < len(c24HeaderSets); hs++ {
+				if tier != "thorough" && !(m == "OPTIONS" || m == "GET" || hs <= 4) {
+					continue
+				}
+				auth := ""
+				if (hs+len(pp))%3 == 0 {
+					auth = "Bearer wrong-token"
+				}
+				fmt.Fprintf(w, "reqh %s 111 %s %s %s 0 - %d\n", hexTok([]byte(c24Token)), m, hexTok([]byte(pp)), hexTok([]byte(auth)), hs)
+			}
+		}
+	}
 	// configuration -> server wiring: every combination of minimal x {unset, true, false}^3, served by the
 	// handler the agent itself builds from the parsed YAML (independent of the seed)
 	gpaths := []string{"/agents", "/sleep/status", "/api/topology", "/api/nodes", "/debug/pprof/cmdline", "/debug/pprof/", "/health", "/", "/nosuch"}
